@@ -78,6 +78,7 @@ class SolverMonitor:
         self.reassemble = reassemble
         self.max_unknowns = max_unknowns
         self.files = []  # (filename, frames) captured from Job._write
+        self.depth = 0
 
     # ------------------------------------------------------------------ attach
     def attach(self):
@@ -115,17 +116,23 @@ class SolverMonitor:
                 kwargs = dict(kwargs)
                 kwargs["solve"] = solve
                 kwargs["check"] = check
-            with attach.guard():
-                ctx = mon.pre_newton(args, kwargs, custom)
+            # Newton calls made *inside* another Newton call (e.g. a material that solves its evolution equation with
+            # newtonrhapson) are judged by the post-conditions but logged as nested.* events, which the trace checker skips
+            mon.depth += 1
             try:
-                res = orig_newton(*args, **kwargs)
-            except BaseException as exc:
                 with attach.guard():
-                    mon.post_newton(ctx, None, exc)
-                raise
-            with attach.guard():
-                mon.post_newton(ctx, res, None)
-            return res
+                    ctx = mon.pre_newton(args, kwargs, custom)
+                try:
+                    res = orig_newton(*args, **kwargs)
+                except BaseException as exc:
+                    with attach.guard():
+                        mon.post_newton(ctx, None, exc)
+                    raise
+                with attach.guard():
+                    mon.post_newton(ctx, res, None)
+                return res
+            finally:
+                mon.depth -= 1
 
         newtonrhapson.__wrapped_by_vmon__ = orig_newton
         attach.rebind_aliases(orig_newton, newtonrhapson)
@@ -235,7 +242,7 @@ class SolverMonitor:
                 except Exception as e:
                     ctx["items_copy"] = None
                     self.run.skip("newton.reassembly", "items cannot be deep-copied: " + type(e).__name__)
-        ev = self.trace.log("newton.call", x=ctx["x_hash"], tol=float(tol), maxiter=int(ctx["maxiter"]),
+        ev = self.trace.log("newton.call" if self.depth <= 1 else "nested.newton.call", x=ctx["x_hash"], tol=float(tol), maxiter=int(ctx["maxiter"]),
                             ext0=ctx["ext0"], dof0=ctx["dof0"],
                             statevars=[hsh(s) for s in ctx.get("sv_copies", [])],
                             items=[id(i) for i in items] if items else None)
@@ -247,7 +254,7 @@ class SolverMonitor:
         run = self.run
         items = ctx["items"]
         if exc is not None:
-            self.trace.log("newton.raise", call=ctx["call_n"], exc=type(exc).__name__, msg=str(exc)[:80],
+            self.trace.log("newton.raise" if self.depth <= 1 else "nested.newton.raise", call=ctx["call_n"], exc=type(exc).__name__, msg=str(exc)[:80],
                            statevars=[hsh(s) for s in statevars_of(items)] if items else None)
             if items is not None:
                 ok = True
@@ -263,7 +270,7 @@ class SolverMonitor:
             run.units["failure:raises:" + type(exc).__name__] += 1
             return
         x = res.x
-        self.trace.log("newton.return", call=ctx["call_n"], success=bool(res.success), iterations=int(res.iterations),
+        self.trace.log("newton.return" if self.depth <= 1 else "nested.newton.return", call=ctx["call_n"], success=bool(res.success), iterations=int(res.iterations),
                        x=field_hash(x) if hasattr(x, "fields") else None, fnorms=list(map(float, res.fnorms)),
                        statevars=[hsh(s) for s in statevars_of(items)] if items else None)
         # --- success flag
